@@ -31,6 +31,7 @@ type Clause struct {
 	// removed, it no longer type-checks).  Loop clauses are then dropped (their obligations
 	// vanish and what depended on them fails); any other clause makes the function undecidable.
 	Broken string
+	Common bool // loop invariant inherited by the views of the function
 	// filled in phase 1 for loop clauses: the free local identifiers (name, type string)
 	Locals []LocalRef
 }
@@ -61,6 +62,7 @@ type Contract struct {
 
 	// parsed header
 	RecvName, RecvType string
+	View               string // non-empty: an additional, separately verified contract of the function
 	Closure            int // >0: the contract is about the N-th function literal of FuncName
 	Params             []Param
 	Results            []Param
@@ -149,7 +151,13 @@ func ParseContractFile(path, pkgPath string) (*ContractFile, error) {
 			cf.Imports = append(cf.Imports, rest)
 			last = nil
 		case "rec":
-			cf.Recs = append(cf.Recs, strings.Fields(rest)...)
+			// `rec name` or `rec name fuel`
+			fs := strings.Fields(rest)
+			if len(fs) == 2 && fs[1] == "fuel" {
+				cf.Recs = append(cf.Recs, fs[0]+":fuel")
+			} else {
+				cf.Recs = append(cf.Recs, fs...)
+			}
 			last = nil
 		case "ghost":
 			rest = strings.TrimSpace(strings.TrimPrefix(rest, "var"))
@@ -215,11 +223,20 @@ func ParseContractFile(path, pkgPath string) (*ContractFile, error) {
 				last = nil
 				continue
 			}
-			if kind != "invariant" && kind != "decreases" {
+			common := false
+			if kind == "common" {
+				// an invariant shared with the views of this function
+				common = true
+			}
+			if kind != "invariant" && kind != "decreases" && kind != "common" {
 				return nil, fmt.Errorf("%s:%d: loop clause kind %q", path, ln+1, kind)
 			}
 			text := strings.TrimSpace(rest[strings.Index(rest, kind)+len(kind):])
+			if common {
+				kind = "invariant"
+			}
 			c := newClause(kind, n, text)
+			c.Common = common
 			cur.Clauses = append(cur.Clauses, c)
 			last = c
 		default: // requires ensures modifies effect decreases assert
@@ -257,6 +274,13 @@ func (c *Contract) parseHeader() error {
 	fd := f.Decls[0].(*ast.FuncDecl)
 	text := func(n ast.Node) string { return src[fset.Position(n.Pos()).Offset:fset.Position(n.End()).Offset] }
 	c.FuncName = fd.Name.Name
+	if m := viewRe.FindStringSubmatch(c.FuncName); m != nil {
+		// F__view_NAME: a further contract for F, verified on its own (its obligations are named
+		// F@NAME#…).  It inherits the requires / modifies / localwrites / freshwrites clauses and
+		// the invariants marked `common` of F's primary contract; callers use the primary only.
+		c.FuncName = m[1]
+		c.View = m[2]
+	}
 	if m := closureRe.FindStringSubmatch(c.FuncName); m != nil {
 		// F__closureN: the N-th function literal (source order) directly inside F; a
 		// receiver in the header names the captured receiver of the enclosing method
@@ -317,10 +341,14 @@ func (c *Contract) parseHeader() error {
 	if c.Closure > 0 {
 		c.Key += fmt.Sprintf("$%d", c.Closure)
 	}
+	if c.View != "" {
+		c.Key += "@" + c.View
+	}
 	c.ID = sanitize(c.Key)
 	return nil
 }
 
+var viewRe = regexp.MustCompile(`^(\w+)__view_(\w+)$`)
 var closureRe = regexp.MustCompile(`^(\w+)__closure([1-9])$`)
 
 func (l *Lemma) parseHeader() error {
@@ -514,7 +542,7 @@ func matchClose(s string, i int) int {
 // function's parameters inside old() denote their entry values, not the current ones).
 var oldArgRewrite func(string) string
 
-var quantRe = regexp.MustCompile(`^\(\s*(forall|exists)\s+`)
+var quantRe = regexp.MustCompile(`^\(\s*(forall|exists|some)\s+`)
 var oldRe = regexp.MustCompile(`\bold\s*(\[[^\]]+\])?\s*\($`)
 
 // desugarGroups rewrites quantifier groups and old() calls, recursively.
@@ -567,6 +595,11 @@ func desugarGroups(s string, oldType func(string) (string, error)) (string, erro
 				fn := "GvcForall"
 				if m[1] == "exists" {
 					fn = "GvcExists"
+				}
+				if m[1] == "some" {
+					// an existential that, where it is assumed, is skolemised as written (one
+					// witness, eagerly); for facts that are not half of a forall-exists pair
+					fn = "GvcSome"
 				}
 				res := inner
 				for vi := len(vars) - 1; vi >= 0; vi-- {
@@ -725,4 +758,35 @@ func sortedKeys[V any](m map[string]V) []string {
 	}
 	sort.Strings(ks)
 	return ks
+}
+
+// inheritViews copies, into every view contract, the clauses it shares with the primary
+// contract of the same function.
+func inheritViews(cs []*Contract) error {
+	for _, v := range cs {
+		if v.View == "" {
+			continue
+		}
+		var prim *Contract
+		for _, c := range cs {
+			if c.View == "" && !c.Extern && c.FuncName == v.FuncName && c.RecvType == v.RecvType && c.Closure == v.Closure {
+				prim = c
+			}
+		}
+		if prim == nil {
+			return fmt.Errorf("%s:%d: view %s has no primary contract", v.File, v.Line, v.Key)
+		}
+		var inh []*Clause
+		for _, cl := range prim.Clauses {
+			switch {
+			case cl.Kind == "requires", cl.Kind == "modifies", cl.Kind == "localwrites", cl.Kind == "freshwrites", cl.Kind == "invariant" && cl.Common:
+				cp := *cl
+				cp.Gen, cp.Locals = "", nil
+				inh = append(inh, &cp)
+			}
+		}
+		v.Clauses = append(inh, v.Clauses...)
+		v.Trusted, v.Pure = prim.Trusted, prim.Pure
+	}
+	return nil
 }
